@@ -9,21 +9,21 @@ import (
 
 // Roles are functions and types of the evaluator identified by what they do, not by name.
 type Roles struct {
-	ExecContext *ssa.Function // dispatcher: looks the NT up in the handler table
-	ExecChildren *ssa.Function // fallback called by the dispatcher when no handler is registered
-	CopyCtx     *ssa.Function // (*exprContext).copy: returns an exprContext built from the receiver
-	CtxType     *types.Named  // exprContext
-	CtxResultField int        // index of the field of type Result in exprContext
-	CtxRootField   int        // index of the field of type store.Cursor
-	CtxPosField    int        // index of the int field read by ContextPosition
-	CtxSizeField   int        // index of the int field read by ContextSize (-1 if absent)
-	ResultIface *types.Named
-	NodeSet     *types.Named
-	Number      *types.Named
-	String      *types.Named
-	Bool        *types.Named
-	Cursor      *types.Named
-	err []string
+	ExecContext    *ssa.Function // dispatcher: looks the NT up in the handler table
+	ExecChildren   *ssa.Function // fallback called by the dispatcher when no handler is registered
+	CopyCtx        *ssa.Function // (*exprContext).copy: returns an exprContext built from the receiver
+	CtxType        *types.Named  // exprContext
+	CtxResultField int           // index of the field of type Result in exprContext
+	CtxRootField   int           // index of the field of type store.Cursor
+	CtxPosField    int           // index of the int field read by ContextPosition
+	CtxSizeField   int           // index of the int field read by ContextSize (-1 if absent)
+	ResultIface    *types.Named
+	NodeSet        *types.Named
+	Number         *types.Named
+	String         *types.Named
+	Bool           *types.Named
+	Cursor         *types.Named
+	err            []string
 }
 
 func (w *World) namedType(pkg, name string) *types.Named {
